@@ -7,11 +7,12 @@ driver ops for C15 (text travels hex-encoded, one code point < 256 per byte; `-`
 * `c15.fmt <f64hex>…`                 → `<hextext>…`          (`'%.18e' % x`)
 * `c15.parse <hextext>…`              → `<f64hex>|err …`      (`strtod`)
 * `c15.genheader <hexcoord> <hexunit|none> <hexunit|none>` → `<hextext>`
-* `c15.save <hexheader> <f64hex x y variance>…` → `<hextext>`  (the file `save_xye` writes)
+* `c15.save d|f <hexheader> <f64hex x y variance>…` → `<hextext>`  (the file `save_xye` writes; `f` = float32
+  data: square root in single precision; the numbers are the exact values of the int / float32 / float64 inputs)
 * `c15.load p|s <hextext>`            → `ok <n> <x…> <y…> <variance…>` | `err:*`
 * `c15.roundtrip p|s <hexheader> <f64hex x y variance>…` → as `c15.load` on the saved text
 * `c15.repls` → `ok|untranslated <hexold>><hexnew>…` (header rewriting statements found by the translator)
-* `c15.check <hasVar 0|1> <ndim> <hasMasks 0|1> <hexdim> <hexcoordarg|none> (<hexname> <ndim> <edges 0|1>)…`
+* `c15.check <hasVar 0|1> <ndim> <hasMasks 0|1> <hexdim> <hexcoordarg|none> (<hexname> <ndim> <edges 0|1> <numeric 0|1>)…`
                                        → `ok <hexname>` | `err:*`
 -/
 namespace ScnVerif.Driver.C15
@@ -19,7 +20,7 @@ open ScnVerif ScnVerif.Xye ScnVerif.Proto
 
 def errStr : Err → String
   | .variances => "err:variances" | .dimension => "err:dimension" | .value => "err:value"
-  | .coord => "err:coord" | .key => "err:key" | .index => "err:index"
+  | .coord => "err:coord" | .key => "err:key" | .index => "err:index" | .type => "err:type"
 
 def text? (h : String) : Option (List Char) := if h = "-" then some [] else hexChars? h
 def textHex (cs : List Char) : String := if cs.isEmpty then "-" else charsHex cs
@@ -49,10 +50,10 @@ def mode? : String → Option Bool
 
 def coords? : List String → Option (List (Coord (List Char)))
   | [] => some []
-  | n :: d :: e :: rest => do
+  | n :: d :: e :: num :: rest => do
       let n ← text? n; let d ← d.toNat?
       let tl ← coords? rest
-      some (⟨n, d, e = "1"⟩ :: tl)
+      some (⟨n, d, e = "1", num = "1"⟩ :: tl)
   | _ => none
 
 def handle : List String → Option String
@@ -66,9 +67,10 @@ def handle : List String → Option String
   | ["c15.genheader", c, cu, du] => do
       let c ← text? c; let cu ← optText? cu; let du ← optText? du
       some (textHex (genHeader c cu du))
-  | "c15.save" :: h :: xs => do
+  | "c15.save" :: prec :: h :: xs => do
+      let single ← (match prec with | "f" => some true | "d" => some false | _ => none)
       let h ← text? h; let fs ← xs.mapM f64?; let rows ← triples fs
-      some (textHex (saveXye Gen.Xye.headerReplacements fmtF Float.sqrt h rows))
+      some (textHex (saveXye Gen.Xye.headerReplacements fmtF (sqrtData single) h rows))
   | ["c15.load", m, t] => do
       let m ← mode? m; let t ← text? t
       some (loadOut (loadText parseF (fun x => x * x) m t))
